@@ -15,6 +15,7 @@ import (
 	"time"
 
 	"github.com/btcsuite/btcd/btcec/v2"
+	"github.com/btcsuite/btcd/btcec/v2/schnorr"
 	"github.com/btcsuite/btcd/btcutil"
 	"github.com/btcsuite/btcd/btcutil/hdkeychain"
 	"github.com/btcsuite/btcd/chaincfg"
@@ -31,8 +32,9 @@ import (
 
 // mop is one manager call in model terms.
 //
-//	K: newscope newacct rename next extend markused impkey impscript
-//	   setsynced setbdayblock setbirthday chpass
+//	K: newscope newacct newacctwo newrawacctwo rename next extend markused
+//	   impkey impscript imppub impwit imptap setsynced setbdayblock setbirthday
+//	   chpass convertwo create
 type mop struct {
 	K    string `json:"k"`
 	Sc   int    `json:"sc"`             // scope id (0 BIP84, 1 BIP44, 2 BIP49+, 3 BIP86, 4.. custom)
@@ -49,7 +51,20 @@ type mop struct {
 	Priv bool   `json:"priv,omitempty"`
 	Old  int    `json:"old,omitempty"` // chpass: old / new passphrase ids
 	New  int    `json:"new,omitempty"`
+	Sec  bool   `json:"sec,omitempty"` // impwit / imptap: isSecretScript
+	Wo   bool   `json:"wo,omitempty"`  // create: without root key (watching-only)
 }
+
+// kinds of imported addresses (third component of their path)
+const (
+	kImpKey = iota
+	kImpScript
+	kImpPub
+	kImpWit
+	kImpTap
+)
+
+var impKindOf = map[string]int64{"impkey": kImpKey, "impscript": kImpScript, "imppub": kImpPub, "impwit": kImpWit, "imptap": kImpTap}
 
 var (
 	mgrParams    = &chaincfg.MainNetParams
@@ -65,6 +80,25 @@ const (
 	nImpScrs  = 2
 	maxScopes = 6
 )
+
+var nImp = map[int64]int64{kImpKey: nImpKeys, kImpScript: nImpScrs, kImpPub: 2, kImpWit: 2, kImpTap: 2}
+
+// the account public key handed to NewAccountWatchingOnly: account k of a
+// key tree that is not the wallet's
+func foreignXpub(k uint32) (*hdkeychain.ExtendedKey, error) {
+	root, err := hdkeychain.NewMaster(bytes.Repeat([]byte{0xf0, 0x4e, 0x16, 0x17}, 8), mgrParams)
+	if err != nil {
+		return nil, err
+	}
+	key := root
+	for _, i := range []uint32{hdkeychain.HardenedKeyStart + 84, hdkeychain.HardenedKeyStart, hdkeychain.HardenedKeyStart + k} {
+		key, err = key.Derive(i)
+		if err != nil {
+			return nil, err
+		}
+	}
+	return key.Neuter()
+}
 
 func scopeOf(id int) waddrmgr.KeyScope {
 	switch id {
@@ -90,6 +124,9 @@ func scopeID(s waddrmgr.KeyScope) int {
 }
 
 func nameOf(id int) string {
+	if id >= 1000 {
+		return fmt.Sprintf("act:%d", id-1000)
+	}
 	switch id {
 	case 0:
 		return ""
@@ -148,6 +185,59 @@ func impScript(i int64) ([]byte, btcutil.Address, error) {
 	return s, a, err
 }
 
+func impPub(i int64) (*btcec.PublicKey, btcutil.Address, error) {
+	d := sha256.Sum256([]byte(fmt.Sprintf("c10-pubkey-%d", i)))
+	priv, _ := btcec.PrivKeyFromBytes(d[:])
+	a, err := btcutil.NewAddressPubKeyHash(btcutil.Hash160(priv.PubKey().SerializeCompressed()), mgrParams)
+	return priv.PubKey(), a, err
+}
+
+func impWitScript(i int64) ([]byte, btcutil.Address, error) {
+	s, err := txscript.NewScriptBuilder().AddInt64(i + 7).AddOp(txscript.OP_DROP).AddOp(txscript.OP_TRUE).Script()
+	if err != nil {
+		return nil, nil, err
+	}
+	d := sha256.Sum256(s)
+	a, err := btcutil.NewAddressWitnessScriptHash(d[:], mgrParams)
+	return s, a, err
+}
+
+func impTapscript(i int64) (*waddrmgr.Tapscript, btcutil.Address, error) {
+	s, err := txscript.NewScriptBuilder().AddInt64(i + 11).AddOp(txscript.OP_DROP).AddOp(txscript.OP_TRUE).Script()
+	if err != nil {
+		return nil, nil, err
+	}
+	leaf := txscript.NewBaseTapLeaf(s)
+	d := sha256.Sum256([]byte(fmt.Sprintf("c10-tapkey-%d", i)))
+	priv, _ := btcec.PrivKeyFromBytes(d[:])
+	ik := priv.PubKey()
+	ts := &waddrmgr.Tapscript{Type: waddrmgr.TapscriptTypeFullTree,
+		ControlBlock: &txscript.ControlBlock{InternalKey: ik}, Leaves: []txscript.TapLeaf{leaf}}
+	tree := txscript.AssembleTaprootScriptTree(leaf)
+	rh := tree.RootNode.TapHash()
+	ok := txscript.ComputeTaprootOutputKey(ik, rh[:])
+	a, err := btcutil.NewAddressTaproot(schnorr.SerializePubKey(ok), mgrParams)
+	return ts, a, err
+}
+
+func impAddr(kind, i int64) (btcutil.Address, error) {
+	var a btcutil.Address
+	var err error
+	switch kind {
+	case kImpKey:
+		_, a, err = impKey(i)
+	case kImpScript:
+		_, a, err = impScript(i)
+	case kImpPub:
+		_, a, err = impPub(i)
+	case kImpWit:
+		_, a, err = impWitScript(i)
+	default:
+		_, a, err = impTapscript(i)
+	}
+	return a, err
+}
+
 func errClass(err error) string {
 	if err == nil {
 		return ""
@@ -172,6 +262,20 @@ func mopName(o mop) string {
 		return "NewScopedKeyManager"
 	case "newacct":
 		return "NewAccount"
+	case "newacctwo":
+		return "NewAccountWatchingOnly"
+	case "newrawacctwo":
+		return "NewRawAccountWatchingOnly"
+	case "imppub":
+		return "ImportPublicKey"
+	case "impwit":
+		return "ImportWitnessScript"
+	case "imptap":
+		return "ImportTaprootScript"
+	case "convertwo":
+		return "ConvertToWatchingOnly"
+	case "create":
+		return "waddrmgr.Create"
 	case "rename":
 		return "RenameAccount"
 	case "next":
@@ -203,6 +307,17 @@ func mopName(o mop) string {
 		return "ChangePassphrase(public)"
 	}
 	return o.K
+}
+
+// what the locked manager must refuse before any write
+func refusedWhenLocked(o mop) bool {
+	switch o.K {
+	case "newscope", "newacct", "impkey", "impscript":
+		return true
+	case "impwit", "imptap":
+		return o.Sec
+	}
+	return false
 }
 
 func mopsName(ops []mop) string {
@@ -269,7 +384,20 @@ func (f *gfacts) apply(o mop) bool {
 			return false
 		}
 		f.addScope(o.Sc)
-	case "newacct":
+	case "newrawacctwo":
+		name := 1000 + int(o.Acct)
+		if !f.scopes[o.Sc] || f.names[o.Sc][name] {
+			return false
+		}
+		f.lastAcct[o.Sc] = o.Acct
+		if !f.hasAcct(o.Sc, o.Acct) {
+			f.accts[o.Sc] = append(f.accts[o.Sc], o.Acct)
+		}
+		f.names[o.Sc][name] = true
+		f.nameOfA[[2]int64{int64(o.Sc), o.Acct}] = name
+		f.next[[3]int64{int64(o.Sc), o.Acct, 0}] = 0
+		f.next[[3]int64{int64(o.Sc), o.Acct, 1}] = 0
+	case "newacct", "newacctwo":
 		if !f.scopes[o.Sc] || f.names[o.Sc][o.Name] || o.Name < 3 {
 			return false
 		}
@@ -321,12 +449,14 @@ func (f *gfacts) apply(o mop) bool {
 			return false
 		}
 		f.used[p] = true
-	case "impkey", "impscript":
+	case "impkey", "impscript", "imppub", "impwit", "imptap":
 		p := o.path()
 		if f.imported[p] {
 			return false
 		}
 		f.imported[p] = true
+	case "convertwo", "create":
+		return false // probed only, never part of a history
 	case "setsynced":
 		if o.H > 0 && f.bdaySet && o.H != f.synced+1 && o.H != f.synced {
 			// the previous block hash is only known for consecutive heights
@@ -354,16 +484,11 @@ func (f *gfacts) apply(o mop) bool {
 
 func (o mop) path() path4 {
 	switch o.K {
-	case "impkey":
-		return path4{int64(o.Sc), -1, 0, o.Idx}
-	case "impscript":
-		return path4{int64(o.Sc), -1, 1, o.Idx}
+	case "impkey", "impscript", "imppub", "impwit", "imptap":
+		return path4{int64(o.Sc), -1, impKindOf[o.K], o.Idx}
 	case "markused":
-		switch o.Imp {
-		case 1:
-			return path4{int64(o.Sc), -1, 0, o.Idx}
-		case 2:
-			return path4{int64(o.Sc), -1, 1, o.Idx}
+		if o.Imp > 0 {
+			return path4{int64(o.Sc), -1, int64(o.Imp - 1), o.Idx}
 		}
 		return path4{int64(o.Sc), o.Acct, o.Br, o.Idx}
 	}
@@ -469,11 +594,7 @@ func (r *resolver) addr(p path4) (btcutil.Address, error) {
 	var a btcutil.Address
 	var err error
 	if p[1] == -1 {
-		if p[2] == 0 {
-			_, a, err = impKey(p[3])
-		} else {
-			_, a, err = impScript(p[3])
-		}
+		a, err = impAddr(p[2], p[3])
 	} else {
 		err = walletdb.View(r.env.raw, func(tx walletdb.ReadTx) error {
 			sm, err := r.env.mgr.FetchScopedKeyManager(scopeOf(int(p[0])))
@@ -516,6 +637,84 @@ func (e *mgrEnv) applyMop(ns walletdb.ReadWriteBucket, o mop, res *resolver) (st
 			return "", err
 		}
 		return fmt.Sprintf("account %d", a), nil
+	case "newacctwo":
+		sm, err := scoped()
+		if err != nil {
+			return "", err
+		}
+		xpub, err := foreignXpub(uint32(o.Name))
+		if err != nil {
+			return "", fmt.Errorf("harness: %w", err)
+		}
+		a, err := sm.NewAccountWatchingOnly(ns, nameOf(o.Name), xpub, 0x0c100c10, nil)
+		if err != nil {
+			return "", err
+		}
+		return fmt.Sprintf("account %d", a), nil
+	case "newrawacctwo":
+		sm, err := scoped()
+		if err != nil {
+			return "", err
+		}
+		xpub, err := foreignXpub(uint32(1000 + o.Acct))
+		if err != nil {
+			return "", fmt.Errorf("harness: %w", err)
+		}
+		return "", sm.NewRawAccountWatchingOnly(ns, uint32(o.Acct), xpub, 0x0c100c10, nil)
+	case "imppub":
+		sm, err := scoped()
+		if err != nil {
+			return "", err
+		}
+		pk, _, err := impPub(o.Idx)
+		if err != nil {
+			return "", err
+		}
+		ma, err := sm.ImportPublicKey(ns, pk, stamp())
+		if err != nil {
+			return "", err
+		}
+		return ma.Address().EncodeAddress(), nil
+	case "impwit":
+		sm, err := scoped()
+		if err != nil {
+			return "", err
+		}
+		sc, _, err := impWitScript(o.Idx)
+		if err != nil {
+			return "", err
+		}
+		ma, err := sm.ImportWitnessScript(ns, sc, stamp(), 0, o.Sec)
+		if err != nil {
+			return "", err
+		}
+		return ma.Address().EncodeAddress(), nil
+	case "imptap":
+		sm, err := scoped()
+		if err != nil {
+			return "", err
+		}
+		ts, _, err := impTapscript(o.Idx)
+		if err != nil {
+			return "", err
+		}
+		ma, err := sm.ImportTaprootScript(ns, ts, stamp(), 1, o.Sec)
+		if err != nil {
+			return "", err
+		}
+		return ma.Address().EncodeAddress(), nil
+	case "convertwo":
+		return "", e.mgr.ConvertToWatchingOnly(ns)
+	case "create":
+		var root *hdkeychain.ExtendedKey
+		if !o.Wo {
+			var err error
+			root, err = hdkeychain.NewMaster(mgrSeed, mgrParams)
+			if err != nil {
+				return "", err
+			}
+		}
+		return "", waddrmgr.Create(ns, root, passOf(false, 0), passOf(true, 0), mgrParams, &waddrmgr.FastScryptOptions, mgrBirthday)
 	case "rename":
 		sm, err := scoped()
 		if err != nil {
@@ -630,6 +829,7 @@ type watch struct {
 	names  []int
 	addrs  []watched
 	priv   []int // candidate private passphrases, the expected one first
+	locked bool  // the case runs on a locked manager: lock again after asking for the passphrase
 }
 
 type watched struct {
@@ -645,6 +845,18 @@ func observeMgr(e *mgrEnv, w *watch) items {
 		st := m.SyncedTo()
 		it["synced_to"] = fmt.Sprintf("%d/%d", st.Height, hashID(st.Hash))
 		it["birthday"] = fmt.Sprint(m.Birthday().Unix())
+		it["watch_only"] = fmt.Sprint(m.WatchOnly())
+		it["locked"] = fmt.Sprint(m.IsLocked())
+		// which of the manager's own private key buffers hold material
+		var km []string
+		for _, b := range m.VerifSecretBuffers() {
+			switch b.Name {
+			case "masterKeyPriv", "cryptoKeyPriv", "cryptoKeyScript", "hashedPrivPassphrase":
+				km = append(km, fmt.Sprintf("%s=%v", b.Name, b.Live))
+			}
+		}
+		sort.Strings(km)
+		it["key_material"] = strings.Join(km, ",")
 		if bb, ver, err := m.BirthdayBlock(ns); err != nil {
 			it["birthday_block"] = errClass(err)
 		} else {
@@ -718,12 +930,15 @@ func observeMgr(e *mgrEnv, w *watch) items {
 		// the private passphrase the running manager accepts (asked only at
 		// states where some probed call changes it: every Lock/Unlock costs a
 		// key derivation and a forced garbage collection inside snacl)
-		if len(w.priv) < 2 {
+		if len(w.priv) < 2 || m.WatchOnly() {
 			return nil
 		}
-		if err := m.Lock(); err != nil {
-			it["passphrase"] = "lock: " + errClass(err)
-			return nil
+		wasLocked := m.IsLocked()
+		if !wasLocked {
+			if err := m.Lock(); err != nil {
+				it["passphrase"] = "lock: " + errClass(err)
+				return nil
+			}
 		}
 		it["passphrase"] = "none accepted"
 		for _, id := range w.priv {
@@ -731,6 +946,9 @@ func observeMgr(e *mgrEnv, w *watch) items {
 				it["passphrase"] = fmt.Sprintf("private-%d", id)
 				break
 			}
+		}
+		if wasLocked && !m.IsLocked() {
+			m.Lock()
 		}
 		return nil
 	})
@@ -749,7 +967,7 @@ func buildWatch(f *gfacts, res *resolver, probes [][]mop) (*watch, error) {
 	for _, ops := range probes {
 		for _, o := range ops {
 			switch o.K {
-			case "setsynced", "setbdayblock", "setbirthday", "chpass":
+			case "setsynced", "setbdayblock", "setbirthday", "chpass", "convertwo", "create":
 			default:
 				inPlay[o.Sc] = true
 			}
@@ -766,6 +984,13 @@ func buildWatch(f *gfacts, res *resolver, probes [][]mop) (*watch, error) {
 		w.scopes = append(w.scopes, sc)
 		as := append([]int64{}, f.accts[sc]...)
 		as = append(as, f.lastAcct[sc]+1) // the account a NewAccount would create
+		for _, ops := range probes {
+			for _, o := range ops {
+				if o.K == "newrawacctwo" && o.Sc == sc {
+					as = append(as, o.Acct)
+				}
+			}
+		}
 		w.accts[sc] = as
 	}
 	names := map[int]bool{2: true}
@@ -776,8 +1001,11 @@ func buildWatch(f *gfacts, res *resolver, probes [][]mop) (*watch, error) {
 	}
 	for _, ops := range probes {
 		for _, o := range ops {
-			if o.K == "newacct" || o.K == "rename" {
+			switch o.K {
+			case "newacct", "rename", "newacctwo":
 				names[o.Name] = true
+			case "newrawacctwo":
+				names[1000+int(o.Acct)] = true
 			}
 		}
 	}
@@ -812,19 +1040,79 @@ func buildWatch(f *gfacts, res *resolver, probes [][]mop) (*watch, error) {
 			}
 		}
 	}
-	for i := int64(0); i < nImpKeys; i++ {
-		add("impkey", path4{impScope, -1, 0, i})
-	}
-	for i := int64(0); i < nImpScrs; i++ {
-		add("impscript", path4{impScope, -1, 1, i})
+	for kind := int64(0); kind <= kImpTap; kind++ {
+		for i := int64(0); i < nImp[kind]; i++ {
+			add(fmt.Sprintf("imp%d", kind), path4{impScope, -1, kind, i})
+		}
 	}
 	w.priv = []int{f.priv}
 	return w, nil
 }
 
+// addrIDs: the paths an address row of this case can belong to.
+func addrIDs(f *gfacts, res *resolver, probes [][]mop) *mgrIDs {
+	x := &mgrIDs{paths: map[[32]byte]path4{}}
+	add := func(p path4) {
+		if a, err := res.addr(p); err == nil {
+			x.paths[addrHashOf(a.ScriptAddress())] = p
+		}
+	}
+	reach := map[[3]int64]int64{}
+	for sc := range f.scopes {
+		for _, a := range f.accts[sc] {
+			for br := int64(0); br < 2; br++ {
+				k := [3]int64{int64(sc), a, br}
+				reach[k] = f.next[k] + 4
+			}
+		}
+	}
+	for _, ops := range probes {
+		for _, o := range ops {
+			k := [3]int64{int64(o.Sc), o.Acct, o.Br}
+			switch o.K {
+			case "extend":
+				if o.N+2 > reach[k] {
+					reach[k] = o.N + 2
+				}
+			case "next":
+				if f.next[k]+o.N+1 > reach[k] {
+					reach[k] = f.next[k] + o.N + 1
+				}
+			}
+		}
+	}
+	for k, n := range reach {
+		if !f.scopes[int(k[0])] {
+			continue
+		}
+		for i := int64(0); i < n; i++ {
+			add(path4{k[0], k[1], k[2], i})
+		}
+	}
+	for kind := int64(0); kind <= kImpTap; kind++ {
+		for i := int64(0); i < nImp[kind]; i++ {
+			add(path4{impScope, -1, kind, i})
+		}
+	}
+	return x
+}
+
 // ---------------------------------------------------------------- one state
 
+// siteOf names where a finding arose: the fault fired inside the (first)
+// call itself, or in a later call of the same database transaction after the
+// named calls had completed.
+func siteOf(names []string, firedAt int) string {
+	if firedAt <= 0 {
+		return names[0] + ":own-write"
+	}
+	return strings.Join(names[:firedAt], "+") + ":later-write"
+}
+
 func runMgrCase(in input) (*caseOut, error) {
+	if in.Fresh {
+		return runFreshMgrCase(in)
+	}
 	co := &caseOut{In: in}
 	dir, err := tempDir("vh-c10-mgr-")
 	if err != nil {
@@ -881,6 +1169,27 @@ func runMgrCase(in input) (*caseOut, error) {
 	if err != nil {
 		return nil, err
 	}
+	w0.locked = in.Locked
+	ids := addrIDs(facts, res, in.MgrOps)
+	state, err := dumpMgr(oracle.raw, ids)
+	if err != nil {
+		return nil, err
+	}
+	co.Obs.State = state
+
+	open := func() (*mgrEnv, error) {
+		e, err := openMgrCopy(dir, snapshot, facts.pub, facts.priv)
+		if err != nil {
+			return nil, err
+		}
+		if in.Locked {
+			if err := e.mgr.Lock(); err != nil {
+				e.close()
+				return nil, err
+			}
+		}
+		return e, nil
+	}
 
 	for idx, ops := range in.MgrOps {
 		p := probe{Idx: idx, Name: mopsName(ops), Ks: []kOut{}}
@@ -898,7 +1207,7 @@ func runMgrCase(in input) (*caseOut, error) {
 		}
 		w1 := &w
 		// clean run
-		ce, err := openMgrCopy(dir, snapshot, facts.pub, facts.priv)
+		ce, err := open()
 		if err != nil {
 			return nil, err
 		}
@@ -922,17 +1231,22 @@ func runMgrCase(in input) (*caseOut, error) {
 			p.Clean = "err"
 		}
 		cleanPost := observeMgr(ce, w1)
+		cleanDump, err := dumpMgr(ce.raw, ids)
+		if err != nil {
+			return nil, err
+		}
+		p.Delta = diffDumps(state, cleanDump)
 		ce.close()
 
 		for k := 1; k <= p.N; k++ {
 			if !wantK(&in, k) {
 				continue
 			}
-			ke, err := openMgrCopy(dir, snapshot, facts.pub, facts.priv)
+			ke, err := open()
 			if err != nil {
 				return nil, err
 			}
-			ko := kOut{K: k}
+			ko := kOut{K: k, Cats: []string{}}
 			if d := pre.diff(observeMgr(ke, w1)); len(d) > 0 {
 				ke.close()
 				return nil, fmt.Errorf("harness: a fresh manager on a copy of the same file answers differently: %v", d)
@@ -944,16 +1258,13 @@ func runMgrCase(in input) (*caseOut, error) {
 			if fc := ke.fdb.FailedCall(); fc != nil {
 				ko.Callee = fc.Callee
 			}
-			// site: the calls completed before the failing one (their memory
-			// effects are what can survive), else the failing call itself
-			site := p.Name
+			if firedAt > 0 {
+				ko.Call = firedAt
+			}
+			site := siteOf(names, firedAt)
 			failing := p.Name
 			if firedAt >= 0 {
 				failing = names[firedAt]
-				site = failing
-				if firedAt > 0 {
-					site = strings.Join(names[:firedAt], "+")
-				}
 			}
 			switch {
 			case !ko.Fired:
@@ -977,6 +1288,7 @@ func runMgrCase(in input) (*caseOut, error) {
 					if _, ok := pre[it]; !ok && category(it) == "used_flag" {
 						continue // a flag of an address that was not known before: reported as address_lookup
 					}
+					ko.Cats = appendUniq(ko.Cats, category(it))
 					ko.Kinds = appendUniq(ko.Kinds, "memory_not_restored:"+category(it)+"@"+site)
 					ko.Detail = append(ko.Detail, fmt.Sprintf("differs after rollback: %s: %q -> %q", it, pre[it], after[it]))
 				}
@@ -986,15 +1298,192 @@ func runMgrCase(in input) (*caseOut, error) {
 					ko.Detail = append(ko.Detail, fmt.Sprintf("retry result %q, clean result %q", r, p.Result))
 				} else {
 					post := observeMgr(ke, w1)
-					if d := cleanPost.diff(post); len(d) > 0 {
+					rdump, err := dumpMgr(ke.raw, ids)
+					if err != nil {
+						return nil, err
+					}
+					d := cleanPost.diff(post)
+					dd := diffDumps(cleanDump, rdump)
+					if len(d) > 0 || len(dd.Put)+len(dd.Del)+len(dd.NewB)+len(dd.GoneB) > 0 {
 						ko.Kinds = append(ko.Kinds, "retry_differs@"+site)
 						for _, it := range d {
 							ko.Detail = append(ko.Detail, fmt.Sprintf("after retry: %s: %q, clean run: %q", it, post[it], cleanPost[it]))
+						}
+						for _, r := range dd.Put {
+							ko.Detail = append(ko.Detail, fmt.Sprintf("after retry the file holds %v, after the clean run not", r))
+						}
+						for _, r := range dd.Del {
+							ko.Detail = append(ko.Detail, fmt.Sprintf("after retry the file lacks %v", r))
 						}
 					}
 				}
 			}
 			ke.close()
+			p.Ks = append(p.Ks, ko)
+		}
+		co.Obs.Probes = append(co.Obs.Probes, p)
+	}
+	finish(co)
+	return co, nil
+}
+
+// runFreshMgrCase probes waddrmgr.Create: the file holds nothing but the
+// (empty) namespace bucket.
+func runFreshMgrCase(in input) (*caseOut, error) {
+	co := &caseOut{In: in}
+	dir, err := tempDir("vh-c10-new-")
+	if err != nil {
+		return nil, err
+	}
+	defer os.RemoveAll(dir)
+	snapshot := filepath.Join(dir, "fresh.db")
+	raw, err := walletdb.Create("bdb", snapshot, true, time.Minute, false)
+	if err != nil {
+		return nil, err
+	}
+	err = walletdb.Update(raw, func(tx walletdb.ReadWriteTx) error {
+		_, err := tx.CreateTopLevelBucket(mgrNS)
+		return err
+	})
+	if err != nil {
+		return nil, err
+	}
+	ids := &mgrIDs{paths: map[[32]byte]path4{}}
+	state, err := dumpMgr(raw, ids)
+	if err != nil {
+		return nil, err
+	}
+	raw.Close()
+	co.Obs.State = state
+	open := func() (*mgrEnv, error) {
+		e := &mgrEnv{path: filepath.Join(dir, fmt.Sprintf("copy%d.db", atomic.AddInt64(&copySeq, 1)))}
+		if err := copyFile(snapshot, e.path); err != nil {
+			return nil, err
+		}
+		var err error
+		e.raw, err = walletdb.Open("bdb", e.path, true, time.Minute, false)
+		if err != nil {
+			return nil, err
+		}
+		e.fdb = faultdb.Wrap(e.raw)
+		return e, nil
+	}
+	// what a created manager is asked: does it open, unlock (unless watching-only), and a few answers
+	observe := func(e *mgrEnv, wo bool) items {
+		it := items{}
+		err := walletdb.View(e.raw, func(tx walletdb.ReadTx) error {
+			ns := tx.ReadBucket(mgrNS)
+			m, err := waddrmgr.Open(ns, passOf(false, 0), mgrParams)
+			if err != nil {
+				it["open"] = errClass(err)
+				return nil
+			}
+			defer m.Close()
+			it["open"] = "ok"
+			it["watch_only"] = fmt.Sprint(m.WatchOnly())
+			if !wo {
+				if err := m.Unlock(ns, passOf(true, 0)); err != nil {
+					it["unlock"] = errClass(err)
+				} else {
+					it["unlock"] = "ok"
+				}
+			}
+			st := m.SyncedTo()
+			it["synced_to"] = fmt.Sprintf("%d/%d", st.Height, hashID(st.Hash))
+			it["birthday"] = fmt.Sprint(m.Birthday().Unix())
+			var sids []string
+			for _, sm := range m.ActiveScopedKeyManagers() {
+				sids = append(sids, fmt.Sprint(scopeID(sm.Scope())))
+				if la, err := sm.LastAccount(ns); err == nil {
+					it[fmt.Sprintf("last_account:%d", scopeID(sm.Scope()))] = fmt.Sprint(la)
+				}
+			}
+			sort.Strings(sids)
+			it["scopes"] = strings.Join(sids, ",")
+			return nil
+		})
+		if err != nil {
+			it["query_error"] = err.Error()
+		}
+		return it
+	}
+	for idx, ops := range in.MgrOps {
+		p := probe{Idx: idx, Name: mopsName(ops), Ks: []kOut{}}
+		wo := len(ops) > 0 && ops[0].Wo
+		ce, err := open()
+		if err != nil {
+			return nil, err
+		}
+		preDump, err := faultdb.Dump(ce.raw)
+		if err != nil {
+			return nil, err
+		}
+		cres, cerr, _, _ := ce.runTx(ops, nil)
+		p.N = ce.fdb.Writes()
+		p.Calls = callList(ce.fdb.Calls)
+		p.Result = cres + "|" + errClass(cerr)
+		p.Clean = "ok"
+		if cerr != nil {
+			p.Clean = "err"
+		}
+		cleanPost := observe(ce, wo)
+		cleanDump, err := dumpMgr(ce.raw, ids)
+		if err != nil {
+			return nil, err
+		}
+		p.Delta = diffDumps(state, cleanDump)
+		ce.raw.Close()
+		os.Remove(ce.path)
+		for k := 1; k <= p.N; k++ {
+			if !wantK(&in, k) {
+				continue
+			}
+			ke, err := open()
+			if err != nil {
+				return nil, err
+			}
+			ko := kOut{K: k, Cats: []string{}}
+			ke.fdb.FailAt = k
+			kres, kerr, _, _ := ke.runTx(ops, nil)
+			ke.fdb.FailAt = 0
+			ko.Fired, ko.Err, ko.Text = ke.fdb.Fired, kerr != nil, kres+"|"+errClass(kerr)
+			if fc := ke.fdb.FailedCall(); fc != nil {
+				ko.Callee = fc.Callee
+			}
+			site := p.Name + ":own-write"
+			switch {
+			case !ko.Fired:
+				ko.Kinds = append(ko.Kinds, "write_count_not_reproducible@"+p.Name)
+			case kerr == nil:
+				ko.Kinds = append(ko.Kinds, "success_with_failed_write@"+p.Name+"/"+ko.Callee)
+			default:
+				dump, err := faultdb.Dump(ke.raw)
+				if err != nil {
+					return nil, err
+				}
+				if d := faultdb.DiffDump(preDump, dump, 6); len(d) > 0 {
+					ko.Kinds = append(ko.Kinds, "database_changed_after_rollback@"+p.Name)
+					ko.Detail = append(ko.Detail, d...)
+				}
+				rres, rerr, _, _ := ke.runTx(ops, nil)
+				if r := rres + "|" + errClass(rerr); r != p.Result {
+					ko.Kinds = append(ko.Kinds, "retry_differs@"+site)
+					ko.Detail = append(ko.Detail, fmt.Sprintf("retry result %q, clean result %q", r, p.Result))
+				} else {
+					post := observe(ke, wo)
+					rdump, err := dumpMgr(ke.raw, ids)
+					if err != nil {
+						return nil, err
+					}
+					dd := diffDumps(cleanDump, rdump)
+					if d := cleanPost.diff(post); len(d) > 0 || len(dd.Put)+len(dd.Del)+len(dd.NewB)+len(dd.GoneB) > 0 {
+						ko.Kinds = append(ko.Kinds, "retry_differs@"+site)
+						ko.Detail = append(ko.Detail, fmt.Sprintf("after retry differs from the clean run in: %v %v", d, dd))
+					}
+				}
+			}
+			ke.raw.Close()
+			os.Remove(ke.path)
 			p.Ks = append(p.Ks, ko)
 		}
 		co.Obs.Probes = append(co.Obs.Probes, p)
@@ -1038,13 +1527,6 @@ func genMgrStates(r *gen.R, perHist, want int) []input {
 		sort.Slice(cs, func(i, j int) bool { return fmt.Sprint(cs[i]) < fmt.Sprint(cs[j]) })
 		return cs[r.Intn(len(cs))], true
 	}
-	markOp := func(p path4) mop {
-		o := mop{K: "markused", Sc: int(p[0]), Acct: p[1], Br: p[2], Idx: p[3]}
-		if p[1] == -1 {
-			o.Imp, o.Acct, o.Br = int(p[2])+1, 0, 0
-		}
-		return o
-	}
 	nextSynced := func() mop {
 		hashSeq++
 		h := f.synced + 1
@@ -1054,7 +1536,7 @@ func genMgrStates(r *gen.R, perHist, want int) []input {
 		return mop{K: "setsynced", H: h, Hash: hashSeq}
 	}
 	genOp := func() mop {
-		switch r.Pick(3, 2, 6, 2, 3, 2, 2, 4, 1, 1, 1, 1) {
+		switch r.Pick(3, 2, 6, 2, 3, 2, 2, 4, 1, 1, 1, 1, 2, 1) {
 		case 0:
 			return mop{K: "newacct", Sc: pickScopeNoCustom(f, r), Name: newName()}
 		case 1:
@@ -1090,13 +1572,19 @@ func genMgrStates(r *gen.R, perHist, want int) []input {
 				return mop{K: "chpass", Priv: true, Old: f.priv, New: passSeq}
 			}
 			return mop{K: "chpass", Priv: false, Old: f.pub, New: passSeq}
-		default:
+		case 11:
 			for _, sc := range []int{4, 5} {
 				if !f.scopes[sc] {
 					return mop{K: "newscope", Sc: sc}
 				}
 			}
 			return nextSynced()
+		case 12:
+			// a public key, a witness script or a taproot script
+			k := []string{"imppub", "impwit", "imptap"}[r.Intn(3)]
+			return mop{K: k, Sc: impScope, Idx: int64(r.Intn(2)), H: int32(r.Range(0, 3)), Sec: r.Chance(1, 2)}
+		default:
+			return mop{K: "newacctwo", Sc: pickScopeNoCustom(f, r), Name: newName()}
 		}
 	}
 	nTx := r.Range(2, 14)
@@ -1106,8 +1594,6 @@ func genMgrStates(r *gen.R, perHist, want int) []input {
 			ops = append(ops, genOp())
 		}
 		// the simulated facts decide whether the whole transaction commits
-		g := *f
-		_ = g
 		ok := true
 		trial := cloneFacts(f)
 		for _, o := range ops {
@@ -1155,10 +1641,20 @@ func genMgrStates(r *gen.R, perHist, want int) []input {
 				sf = trial
 			}
 		}
-		in.MgrOps = genMgrProbes(r, sf, &hashSeq, &passSeq, &nameSeq)
+		// one state in four is probed with the manager locked
+		in.Locked = r.Chance(1, 4)
+		in.MgrOps = genMgrProbes(r, sf, in.Locked, &hashSeq, &passSeq, &nameSeq)
 		out = append(out, in)
 	}
 	return out
+}
+
+func markOp(p path4) mop {
+	o := mop{K: "markused", Sc: int(p[0]), Acct: p[1], Br: p[2], Idx: p[3]}
+	if p[1] == -1 {
+		o.Imp, o.Acct, o.Br = int(p[2])+1, 0, 0
+	}
+	return o
 }
 
 func pickScopeNoCustom(f *gfacts, r *gen.R) int { return r.Intn(2) }
@@ -1199,9 +1695,11 @@ func cloneFacts(f *gfacts) *gfacts {
 }
 
 // genMgrProbes: every kind of mutating call with arguments that fit the
-// state (plus a few that are refused), and every call with an early memory
-// update followed by one more call in the same database transaction.
-func genMgrProbes(r *gen.R, f *gfacts, hashSeq, passSeq, nameSeq *int) [][]mop {
+// state (plus a few that are refused), and every call with a memory effect
+// followed by one more call in the same database transaction.  With the
+// manager locked the calls that need the private keys are refused before any
+// write; the others run as usual.
+func genMgrProbes(r *gen.R, f *gfacts, locked bool, hashSeq, passSeq, nameSeq *int) [][]mop {
 	var out [][]mop
 	name := func() int { *nameSeq++; return *nameSeq }
 	hash := func() int { *hashSeq++; return *hashSeq }
@@ -1221,6 +1719,9 @@ func genMgrProbes(r *gen.R, f *gfacts, hashSeq, passSeq, nameSeq *int) [][]mop {
 	out = append(out, []mop{newacct})
 	// an account name that is taken: refused before any write
 	out = append(out, []mop{{K: "newacct", Sc: sc, Name: 2}})
+	newacctwo := mop{K: "newacctwo", Sc: sc % 2, Name: name()}
+	out = append(out, []mop{newacctwo})
+	out = append(out, []mop{{K: "newrawacctwo", Sc: sc % 2, Acct: f.lastAcct[sc%2] + int64(r.Range(2, 5))}})
 	var renamable []int64
 	for _, a := range f.accts[sc] {
 		renamable = append(renamable, a)
@@ -1243,25 +1744,20 @@ func genMgrProbes(r *gen.R, f *gfacts, hashSeq, passSeq, nameSeq *int) [][]mop {
 			unused = append(unused, p)
 		}
 	}
-	mark := func(p path4) mop {
-		o := mop{K: "markused", Sc: int(p[0]), Acct: p[1], Br: p[2], Idx: p[3]}
-		if p[1] == -1 {
-			o.Imp, o.Acct, o.Br = int(p[2])+1, 0, 0
-		}
-		return o
-	}
 	if len(unused) > 0 {
-		out = append(out, []mop{mark(unused[r.Intn(len(unused))])})
+		out = append(out, []mop{markOp(unused[r.Intn(len(unused))])})
 	}
 	if len(used) > 0 {
-		out = append(out, []mop{mark(used[r.Intn(len(used))])})
+		out = append(out, []mop{markOp(used[r.Intn(len(used))])})
 	}
 	// an address that was never issued: refused
-	out = append(out, []mop{mark(path4{int64(sc), acct, br, nx + 5})})
-	var impk, imps mop
-	impk = mop{K: "impkey", Sc: impScope, Idx: int64(r.Intn(nImpKeys)), H: int32(r.Range(0, 2))}
-	imps = mop{K: "impscript", Sc: impScope, Idx: int64(r.Intn(nImpScrs)), H: int32(r.Range(0, 2))}
-	out = append(out, []mop{impk}, []mop{imps})
+	out = append(out, []mop{markOp(path4{int64(sc), acct, br, nx + 5})})
+	impk := mop{K: "impkey", Sc: impScope, Idx: int64(r.Intn(nImpKeys)), H: int32(r.Range(0, 2))}
+	imps := mop{K: "impscript", Sc: impScope, Idx: int64(r.Intn(nImpScrs)), H: int32(r.Range(0, 2))}
+	impp := mop{K: "imppub", Sc: impScope, Idx: int64(r.Intn(2)), H: int32(r.Range(0, 2))}
+	impw := mop{K: "impwit", Sc: impScope, Idx: int64(r.Intn(2)), H: int32(r.Range(0, 2)), Sec: r.Chance(1, 2)}
+	impt := mop{K: "imptap", Sc: impScope, Idx: int64(r.Intn(2)), H: int32(r.Range(0, 2)), Sec: r.Chance(1, 2)}
+	out = append(out, []mop{impk}, []mop{imps}, []mop{impp}, []mop{impw}, []mop{impt})
 	synced := mop{K: "setsynced", H: f.synced + 1, Hash: hash()}
 	out = append(out, []mop{synced})
 	if !f.bdaySet {
@@ -1289,16 +1785,24 @@ func genMgrProbes(r *gen.R, f *gfacts, hashSeq, passSeq, nameSeq *int) [][]mop {
 	} else {
 		out = append(out, []mop{{K: "newscope", Sc: 4}}) // exists: the backend refuses the first CreateBucket
 	}
+	convert := mop{K: "convertwo"}
+	out = append(out, []mop{convert})
+	// a manager exists already: refused before any write
+	out = append(out, []mop{{K: "create"}})
 	// several calls in one database transaction: the first one completes,
 	// a write of a later one fails
-	for _, first := range []mop{rename, synced, extend, next1, impk, imps, chpriv, chpub, birthday, newacct} {
+	firsts := []mop{rename, synced, extend, next1, impk, imps, impp, impw, impt, chpriv, chpub, birthday, newacct, newacctwo, convert}
+	for _, first := range firsts {
+		if locked && refusedWhenLocked(first) {
+			continue
+		}
 		out = append(out, []mop{first, tail()})
 	}
-	if newscope != nil {
+	if newscope != nil && !locked {
 		out = append(out, []mop{*newscope, tail()})
 	}
 	if len(unused) > 0 {
-		out = append(out, []mop{synced, mark(unused[0])})
+		out = append(out, []mop{synced, markOp(unused[0])})
 	}
 	return out
 }
